@@ -34,8 +34,26 @@ class Zeros:
     def read(self, n):
         return b'\0' * n
 
+    def seek(self, where, whence=0):
+        pass
+
     def close(self):
         pass
+
+
+class BucketView:
+    """the shared bucket as seen by one stream: records what that stream was charged"""
+
+    def __init__(self, bucket, charged, i):
+        self._b, self._charged, self._i = bucket, charged, i
+
+    def consume(self, amt, request_token):
+        r = self._b.consume(amt, request_token)
+        self._charged[self._i] += amt
+        return r
+
+    def cancel_scheduled_consumption(self, request_token):
+        return self._b.cancel_scheduled_consumption(request_token)
 
 
 def scripts_for(family):
@@ -52,6 +70,15 @@ def scripts_for(family):
         r.append([(1.0, 4), (0, 4), (0, 4), (1.0, 8)])
         r.append([(0, 8), (0.5, 2), (0, 2), (0, 4)])
         r.append([(0, 4), (1.0, 4), (1.0, 4), (1.0, 4)])     # exactly amount/m apart
+    elif family == 'retry':
+        # request bodies as botocore drives them: rewound and re-read on a retry, closed at the
+        # end (bytes below the threshold are charged on close), read with limiting switched off
+        # while the data is not being transferred (checksums)
+        r.append([(0, 3), ('seek',), (0, 3), ('seek',), (0, 3), ('seek',), (0, 3), ('close',)])
+        r.append([(0, 2), ('close',)])
+        r.append([('off',), (0, 8), ('on',), ('seek',), (0, 3), (0, 3), ('close',)])
+        r.append([(0, 4), (0, 3), ('seek',), (0, 4), (0, 3), ('close',)])
+        r.append([(0, 1), ('seek',)] * 9 + [('close',)])
     return r
 
 
@@ -111,6 +138,8 @@ def run_streams(cfg, prefix):
     def main():
         bucket = bw.LeakyBucket(M, time_utils=clock)
         st['sleeps'] = [0] * n
+        st['charged'] = [0] * (n + 1)
+        st['moved'] = [0] * n
         st['pending_amt'] = [0] * n
         st['raised'] = [None] * n
         st['in_read'] = {}
@@ -121,12 +150,30 @@ def run_streams(cfg, prefix):
 
         def runner(i, script):
             coord = Coord()
-            stream = bw.BandwidthLimitedStream(Zeros(), bucket, coord, time_utils=StreamClock(i, coord),
-                                               bytes_threshold=TH)
+            stream = bw.BandwidthLimitedStream(Zeros(), BucketView(bucket, st['charged'], i), coord,
+                                               time_utils=StreamClock(i, coord), bytes_threshold=TH)
             seen = 0
-            for think, size in script:
+            enabled = True
+            for op in script:
+                if op[0] == 'seek':
+                    stream.seek(0)
+                    continue
+                if op[0] == 'off':
+                    stream.signal_not_transferring()
+                    enabled = False
+                    continue
+                if op[0] == 'on':
+                    stream.signal_transferring()
+                    enabled = True
+                    continue
+                closing = op[0] == 'close'
+                think, size = (0, 0) if closing else op
                 if think:
                     s.sleep(think)
+                if not enabled:
+                    d = stream.read(size)
+                    ev.append((s.time(), 'freeread', i, len(d)))
+                    continue
                 st['sleeps'][i] = 0
                 # what the stream will ask the bucket for if it reaches the threshold
                 seen_before = seen
@@ -137,7 +184,11 @@ def run_streams(cfg, prefix):
                 sess = [i, seen + size, s.step, None]
                 st['sessions'].append(sess)
                 try:
-                    d = stream.read(size)
+                    if closing:
+                        stream.close()
+                        d = b''
+                    else:
+                        d = stream.read(size)
                 except Boom as e:
                     sess[3] = s.step
                     st['in_read'].pop(i, None)
@@ -152,8 +203,18 @@ def run_streams(cfg, prefix):
                     st['errors'].append(('C13:read-returned-after-failure',
                                          f'stream {i}: transfer failed while the read was waiting, yet the read returned data'))
                 seen = seen + size
-                if seen >= TH:
+                if seen >= TH or closing:
                     seen = 0
+                st['moved'][i] += len(d)
+                # every byte moved while limiting is on is charged exactly once: when the stream's
+                # uncharged bytes reach the threshold, or when the stream is closed
+                if st['moved'][i] - st['charged'][i] != seen:
+                    st['errors'].append(('C13:bytes-not-charged' if st['moved'][i] - st['charged'][i] > seen else 'C13:bytes-charged-twice',
+                                         f'stream {i}: {st["moved"][i]} bytes moved under the limit, {st["charged"][i]} charged to the bucket, '
+                                         f'{seen} may still be pending below the threshold {TH}' + (' (after close)' if closing else '')))
+                if closing:
+                    ev.append((s.time(), 'close', i, 0))
+                    return
                 ev.append((s.time(), 'read', i, len(d)))
         for i, sc in enumerate(cfg['scripts']):
             threads.append(s.spawn(lambda i=i, sc=sc: runner(i, sc), f'stream{i}'))
@@ -193,7 +254,7 @@ def run_streams(cfg, prefix):
     # (O3) rate bound over every pair of event times
     reads = [(t, v) for (t, k, i, v) in ev if k == 'read']
     times = sorted({t for t, _ in reads})
-    maxread = max(sz for sc in cfg['scripts'] for _, sz in sc)
+    maxread = max(op[1] for sc in cfg['scripts'] for op in sc if len(op) == 2)
     B = n * (2 * TH + maxread)
     factor = 1.0 if cfg.get('saturated') else 1.25
     worst = None
@@ -246,6 +307,14 @@ def configs(tier):
         mpool = mix if n == 2 else mix[:2]
         for combo in itertools.combinations_with_replacement(range(len(mpool)), n):
             cfgs.append(dict(scripts=[mpool[i] for i in combo]))
+    # retried / closed / partly unthrottled bodies
+    rt = scripts_for('retry')
+    for sc in rt:
+        cfgs.append(dict(scripts=[sc]))
+    for a, b in ((0, 0), (0, 3), (2, 3), (4, 1)):
+        cfgs.append(dict(scripts=[rt[a], rt[b]]))
+    cfgs.append(dict(scripts=[rt[0], sat[2][:4]], abandon=True))
+    cfgs.append(dict(scripts=[rt[3], rt[0], sat[1][:5]]))
     # staggered slow streams: merged demand still below the limit
     cfgs.append(dict(scripts=[[(2.0, 2), (4.0, 2), (4.0, 2)], [(4.0, 2), (4.0, 2), (4.0, 2)]], below_limit=True))
     # abandonment / late wake-ups
